@@ -248,12 +248,24 @@ def check_candbbox(ctx, m, cfg, rule="R-SIB"):
 # ---------------------------------------------------------------------------------------------------------------
 # R-SIB passthrough: arrays and their length travel together.  A helper that forwards its candidate arrays to a sub-helper forwards
 # its own element count with them (counting containers among the first i candidates only picks the wrong parent polygon).
-PASSTHROUGH = [("findDeepestContainer", "countContainers", {1: "polygons", 2: "bboxes", 3: "polygonCount"})]
+PASSTHROUGH = [
+    ("findDeepestContainer", "countContainers", {1: "polygons", 2: "bboxes", 3: "polygonCount"}, ["C16"]),
+    # wrappers of the disk family hand the request (origin, k, output) to their worker unchanged; the initial distance of the safe walk is 0
+    ("gridDisk", "gridDiskDistances", {0: "origin", 1: "k", 2: "out"}, ["C05"]),
+    ("gridDiskUnsafe", "gridDiskDistancesUnsafe", {0: "origin", 1: "k", 2: "out"}, ["C05"]),
+    ("gridDiskDistances", "gridDiskDistancesUnsafe", {0: "origin", 1: "k", 2: "out", 3: "distances"}, ["C05"]),
+    ("gridDiskDistances", "_gridDiskDistancesInternal", {0: "origin", 1: "k", 2: "out", 5: 0}, ["C05"]),
+    ("gridDiskDistancesSafe", "_gridDiskDistancesInternal", {0: "origin", 1: "k", 2: "out", 3: "distances", 5: 0}, ["C05"]),
+    ("gridDiskDistances", "maxGridDiskSize", {0: "k"}, ["C05"]),
+    ("gridDiskDistancesSafe", "maxGridDiskSize", {0: "k"}, ["C05"]),
+]
 
 
-def check_passthrough(ctx, m, cfg, rule="R-SIB"):
+def check_passthrough(ctx, m, cfg, rule="R-SIB", pid=None):
     n = 0
-    for caller, callee, binding in PASSTHROUGH:
+    for caller, callee, binding, props in PASSTHROUGH:
+        if pid is not None and pid not in props:
+            continue
         f = m.fn(caller)
         calls = [i for i in f.all_insts() if i.op == "call" and i.callee == callee]
         if not calls:
@@ -263,6 +275,12 @@ def check_passthrough(ctx, m, cfg, rule="R-SIB"):
             inst = {"caller": caller, "callee": callee, "at": c.where(), "config": cfg}
             bad = None
             for k, pname in binding.items():
+                if isinstance(pname, int):
+                    o = _strip(f, c.ops[k])
+                    if not (o[0] == "c" and o[1] == pname):
+                        bad = (k, "constant %d" % pname)
+                        break
+                    continue
                 pk = f.arg_index(pname)
                 if pk is None:
                     raise AnalysisBroken("%s: parameter %s not found" % (caller, pname))
@@ -270,8 +288,8 @@ def check_passthrough(ctx, m, cfg, rule="R-SIB"):
                     bad = (k, pname)
                     break
             if bad:
-                ctx.violation(rule, "passthrough:%s:%s:%s" % (caller, callee, bad[1]), "%s passes something other than its own parameter '%s' as argument %d of %s: the candidate arrays and their "
-                              "length must be forwarded together (otherwise only part of the candidates is considered)" % (caller, bad[1], bad[0] + 1, callee), c.where(), inst)
+                ctx.violation(rule, "passthrough:%s:%s:%s" % (caller, callee, bad[1]), "%s passes something other than its own '%s' as argument %d of %s: the request (arrays with their length; origin, k and "
+                              "output of a disk) must reach the worker unchanged" % (caller, bad[1], bad[0] + 1, callee), c.where(), inst)
             else:
                 ctx.ok(rule, inst, "the arrays and their element count are forwarded unchanged")
     return n
